@@ -63,7 +63,11 @@ Definition in_cat (cat : list cp) (name : N) : bool := existsb (fun c => N.eqb (
 
 (* the property oracle for one step, on the implementation's own observations.
    wstate: spec catalogue, digests recorded at checkpoint time, "a rollback has happened" *)
-Record wstate := W { w_cat : list cp; w_q : list (N * (N * N * N)); w_qi : list (N * (N * N * N)); w_rb : bool; w_n : nat }.
+Record wstate := W { w_cat : list cp; w_q : list (N * (N * N * N)); w_qi : list (N * (N * N * N)); w_rb : bool; w_n : nat;
+                     w_last : list N (* the catalogue the implementation listed after the previous step *) }.
+(* after a rollback has replaced the catalogue (known class 1) the implementation may resolve a name or id
+   against a catalogue that is not the promised one: a wrong target is then that class, not a new violation *)
+Definition cat_diverged (w : wstate) : bool := w_rb w && negb (list_eqb N.eqb (spec_names (w_cat w)) (w_last w)).
 Definition in_cat_id (cat : list cp) (k : N) : bool := existsb (fun c => Nat.eqb (cp_img c) (N.to_nat k)) cat.
 
 Definition cat_verdict (w : wstate) (o : obs) : N :=
@@ -76,28 +80,28 @@ Definition oracle_step (max : nat) (w : wstate) (sp : sop) (o : obs) : wstate * 
                 (cat_verdict w o))
   | SCheckpoint name now ok =>
       let cat' := enforce max (w_cat w ++ [CP name now (w_n w)]) in
-      let w' := W cat' ((name, o_q o) :: w_q w) ((N.of_nat (w_n w), o_q o) :: w_qi w) (w_rb w) (S (w_n w)) in
+      let w' := W cat' ((name, o_q o) :: w_q w) ((N.of_nat (w_n w), o_q o) :: w_qi w) (w_rb w) (S (w_n w)) (w_last w) in
       (w', if negb ok then 2 else cat_verdict w' o)
   | SRollback name ok =>
-      let w' := W (w_cat w) (w_q w) (w_qi w) (ok || w_rb w) (w_n w) in
+      let w' := W (w_cat w) (w_q w) (w_qi w) (ok || w_rb w) (w_n w) (w_last w) in
       if in_cat (w_cat w) name then
         if negb ok then (w', if w_rb w then 11 else 2)
         else
           match aget (w_q w) name with
           | Some q =>
-              let here := if q3_eqb q (o_q o) then 0 else if q3_nonrel_eqb q (o_q o) then 10 else 2 in
+              let here := if q3_eqb q (o_q o) then 0 else if cat_diverged w then 11 else if q3_nonrel_eqb q (o_q o) then 10 else 2 in
               (w', worse here (cat_verdict w' o))
           | None => (w', 9)
           end
       else (w', if ok then (if w_rb w then 11 else 2) else cat_verdict w o)
   | SRollbackId k ok =>
-      let w' := W (w_cat w) (w_q w) (w_qi w) (ok || w_rb w) (w_n w) in
+      let w' := W (w_cat w) (w_q w) (w_qi w) (ok || w_rb w) (w_n w) (w_last w) in
       if in_cat_id (w_cat w) k then
         if negb ok then (w', if w_rb w then 11 else 2)
         else
           match aget (w_qi w) k with
           | Some q =>
-              let here := if q3_eqb q (o_q o) then 0 else if q3_nonrel_eqb q (o_q o) then 10 else 2 in
+              let here := if q3_eqb q (o_q o) then 0 else if cat_diverged w then 11 else if q3_nonrel_eqb q (o_q o) then 10 else 2 in
               (w', worse here (cat_verdict w' o))
           | None => (w', 9)
           end
@@ -111,7 +115,8 @@ Fixpoint walk (c : cfg) (s : state) (w : wstate) (steps : list (sop * obs)) (sev
   | (sp, o) :: r =>
       let s' := model_step c s sp in
       let '(w', v) := oracle_step (max_cp c) w sp o in
-      walk c s' w' r (worse sev v) (agree && model_agrees s' o)
+      let w'' := W (w_cat w') (w_q w') (w_qi w') (w_rb w') (w_n w') (o_cat o) in
+      walk c s' w'' r (worse sev v) (agree && model_agrees s' o)
   end.
 
 Fixpoint nodup_b (l : list N) : bool :=
@@ -127,7 +132,7 @@ Definition check_script (c : script_case) : N :=
   let '(max, steps) := c in
   if negb (well_formed steps) then 9
   else
-    let '(sev, agree) := walk (the_cfg max) init (W [] [] [] false 0) steps 0 true in
+    let '(sev, agree) := walk (the_cfg max) init (W [] [] [] false 0 []) steps 0 true in
     if N.eqb sev 2 then V_VIOLATION
     else if N.eqb sev 9 then 9
     else if negb agree then V_MISMATCH
